@@ -41,3 +41,61 @@ package bfe_server
 //@   requires req != nil
 //@   modifies req.ClientAddr
 //@   ensures[only_a_parsable_address_is_used] req.ClientAddr == old(req.ClientAddr) || !allocated(req.ClientAddr)
+
+// ---- C07 / C08: connection accounting and retry policy of one proxied request ----
+
+//@ func checkRequestWithoutBody
+//@   props C08
+//@   nopanic
+//@   requires req != nil
+//@   frame Eof pure
+//@   modifies nothing
+//@   ensures[a_request_with_an_unread_http1_body_is_never_bodyless] result0 ==> req.Body == nil || req.Body == bfe_http.EofReader || typeis(req.Body, "*bfe_spdy.RequestBody")
+
+//@ func checkAllowRetry
+//@   props C08
+//@   nopanic
+//@   requires outreq != nil
+//@   frame Eof pure
+//@   modifies nothing
+//@   ensures[only_bodyless_GETs_and_only_when_the_retry_level_allows] result0 ==> retryLevel == cluster_conf.RetryGet && outreq.Method == "GET" && (outreq.Body == nil || outreq.Body == bfe_http.EofReader || typeis(outreq.Body, "*bfe_spdy.RequestBody"))
+
+//@ func (*ReverseProxy).clusterInvoke$1
+//@   props C07,C08
+//@   modifies request.Stat.ClusterEnd
+
+//@ func (*ReverseProxy).clusterInvoke
+//@   props C07,C08
+//@   nopanic typeassert,panic
+//@   requires p != nil && srv != nil && cluster != nil && request != nil && request.OutRequest != nil && request.Stat != nil
+//@   requires[a_new_request_holds_no_backend] request.Trans.Backend == nil
+//@   requires forall b *backend.BfeBackend :: -1000000000 < b.connNum && b.connNum < 1000000000
+//@   frame * keeps any backend.BfeBackend.connNum, request.Trans.Backend, request.RetryTime, request.OutRequest, request.OutRequest.Method, request.OutRequest.Body
+//@   frame Balance keeps any backend.BfeBackend.connNum, request.Trans.Backend, request.OutRequest, request.OutRequest.Method, request.OutRequest.Body
+//@   note every callee without a contract (transport lookup, balancer, forward callbacks, RoundTrip, health bookkeeping) is assumed not to change any backend's connection count nor which backend the request holds; all of them except the balancer are assumed to leave the retry counter alone
+//@   modifies *
+//@   ensures[the_request_holds_one_connection_on_its_backend] forall b *backend.BfeBackend :: b != nil && b == request.Trans.Backend ==> b.connNum == old(b.connNum) + 1
+//@   ensures[no_other_backend_is_charged] forall b *backend.BfeBackend :: b != nil && b != request.Trans.Backend ==> b.connNum == old(b.connNum)
+//@   assume[the_balancer_table_returns_a_balancer_or_an_error] at "bal.Balance(request)" :: bal != nil
+//@   assert[only_connect_failures_and_bodyless_GETs_are_sent_again] at "request.RetryTime += 1" #2 :: typeis(err, "bfe_http.ConnectError") || typeis(err, "bfe_fcgi.ConnectError") || (outreq.Method == "GET" && (outreq.Body == nil || outreq.Body == bfe_http.EofReader || typeis(outreq.Body, "*bfe_spdy.RequestBody")))
+//@   loop 1 invariant[outreq_is_the_requests_out_request] request.OutRequest == outreq
+//@   loop 1 invariant[held] forall b *backend.BfeBackend :: b != nil && b == request.Trans.Backend ==> b.connNum == old(b.connNum) + 1
+//@   loop 1 invariant[others] forall b *backend.BfeBackend :: b != nil && b != request.Trans.Backend ==> b.connNum == old(b.connNum)
+
+//@ func (*ReverseProxy).FinishReq$1
+//@   props C07
+//@   requires request != nil
+//@   requires forall b *backend.BfeBackend :: -1000000000 < b.connNum && b.connNum < 1000000000
+//@   modifies any backend.BfeBackend.connNum
+//@   ensures[releases_the_backend_the_request_holds] forall b *backend.BfeBackend :: b != nil && b == request.Trans.Backend ==> b.connNum == old(b.connNum) - 1
+//@   ensures[and_no_other] forall b *backend.BfeBackend :: b != request.Trans.Backend ==> b.connNum == old(b.connNum)
+
+//@ func (*ReverseProxy).FinishReq
+//@   props C07
+//@   requires p != nil && p.server != nil && request != nil
+//@   requires forall b *backend.BfeBackend :: -1000000000 < b.connNum && b.connNum < 1000000000
+//@   frame * keeps any backend.BfeBackend.connNum, request.Trans.Backend
+//@   note the finish-phase callbacks are assumed not to change any backend's connection count nor which backend the request holds
+//@   modifies *
+//@   ensures[the_connection_the_request_holds_is_released_exactly_once] forall b *backend.BfeBackend :: b != nil && b == request.Trans.Backend ==> b.connNum == old(b.connNum) - 1
+//@   ensures[no_other_backend_is_touched] forall b *backend.BfeBackend :: b != request.Trans.Backend ==> b.connNum == old(b.connNum)
